@@ -18,7 +18,23 @@
   What is *not* proved here is that sqlize's model satisfies the four fields in full (see C01/C02/C03/C05/C07 for the
   proved parts); on every run the `history` suite drives the real workflow (in memory and through
   WriteFiles/FromMigrationFolder) and the driver replays every recorded migration on the reference engine.
+
+  **On the implementation model itself** (Proofs/Rounds.lean), without assuming the fields:
+
+    * `model_converges` — for revision lists of any length (MySQL reader model, default field order), every step inside
+      the scope of `C01.schema_on_reference_engine` (no foreign keys, inline PRIMARY KEY or COMMENT options; common tables
+      order-compatible with the same primary key, outside the recorded region): the history `histM` the workflow writes —
+      each printed up migration appended as it reaches the text — is computed without error, is accepted by the
+      reference engine statement by statement, and describes a schema `DB.equiv` to the newest revision's.  The
+      induction composes the one-step theorem with: the printed migration stays inside the vocabulary the one-step
+      theorem assumes of its old side (`schema_up_vocab`: `Table.Diff` keeps the loaded options plain-or-mark,
+      Proofs/DiffPlain, UpVocab), the bare foreign-key marks the renderer does not print are invisible to the engine
+      (`execAll_textual`), and the scope conditions depend on the old schema only up to `DB.equiv` (`UpScope.of_equiv`).
+    * `model_next_diff_empty` — and then the diff of the newest revision against that history returns and both migrations
+      are empty (`C03.equal_schemas_from_scripts` through `dbEquiv_of_equiv`).
 -/
+import SqlizeModel.Proofs.Rounds
+import SqlizeModel.Props.C01
 namespace Sqlize.C04
 
 structure Workflow (Script Model DB Mig : Type) where
@@ -89,5 +105,47 @@ theorem down_returns (revs : List Script) : replayDown w revs (schemaAfter w rev
     simp only [replayDown, schemaAfter]
     rw [down_step]
     exact ih
+
+end Sqlize.C04
+
+namespace Sqlize.C04
+
+open Sqlize Sqlize.Spec in
+/-- the workflow on the implementation model converges, for revision lists of any length -/
+theorem model_converges (g : Globals) (hg : g.dialect = .mysql) (hio : g.ignoreOrder = false)
+    (revs : List (List Stmt × Spec.DB))
+    (hrev : ∀ p ∈ revs, p.1.all Stmt.elemSafe = true ∧ p.1.all Stmt.plainOpts = true ∧ execAll false [] p.1 = some p.2)
+    (hchain : ChainOK revs) :
+    ∃ h dbH, histM g (revs.map (·.1)) = .ok h ∧ h.all Stmt.elemSafe = true ∧ h.all Stmt.plainOpts = true ∧
+      execAll false [] h = some dbH ∧ dbH.equiv (lastDB revs) = true :=
+  rounds g hg hio revs hrev hchain
+
+open Sqlize Sqlize.Spec in
+/-- … and the next diff against the same models is empty in both directions -/
+theorem model_next_diff_empty (g : Globals) (hg : g.dialect = .mysql) (hio : g.ignoreOrder = false)
+    (p : List Stmt × Spec.DB) (older : List (List Stmt × Spec.DB))
+    (hrev : ∀ q ∈ p :: older, q.1.all Stmt.elemSafe = true ∧ q.1.all Stmt.plainOpts = true ∧ execAll false [] q.1 = some q.2)
+    (hchain : ChainOK (p :: older)) :
+    ∃ h d, histM g ((p :: older).map (·.1)) = .ok h ∧ loadAndDiff g h p.1 = .ok d ∧
+      d.migrationUp g = .ok (d, []) ∧ d.migrationDown g = .ok (d, []) :=
+  rounds_next_diff_empty g hg hio p older hrev hchain
+
+-- non-vacuity of `model_converges` (a test of its conclusion on one chain, not the theorem): three revisions — the pair of
+-- `C01.exOldW` / `C01.exNewW` and a third that drops a table and an index again —; the history is computed, accepted, and
+-- equivalent to the newest revision's schema; the decidable hypotheses hold
+open Sqlize Sqlize.Spec in
+def exRev3 : List Stmt :=
+  [.createTable "keep" 0 [{ name := "k", typ := "int(11)" }] ["k"],
+   .createTable "t" 0 [{ name := "z", typ := "text" }, { name := "a", typ := "int(11)", opts := [{ kind := .notNull }] },
+                       { name := "c", typ := "varchar(255)" }, { name := "w", typ := "int(11)" }] [],
+   .createIndex "t" "i_c" ["c"] true ""]
+open Sqlize Sqlize.Spec in
+example : C01.exOldW.all Stmt.elemSafe = true ∧ C01.exNewW.all Stmt.elemSafe = true ∧ exRev3.all Stmt.elemSafe = true ∧
+    C01.exOldW.all Stmt.plainOpts = true ∧ C01.exNewW.all Stmt.plainOpts = true ∧ exRev3.all Stmt.plainOpts = true := by decide
+open Sqlize Sqlize.Spec in
+example : ∃ h dbH db3, histM {} [exRev3, C01.exNewW, C01.exOldW] = .ok h ∧ execAll false [] h = some dbH ∧
+    execAll false [] exRev3 = some db3 ∧ h.length = 5 + 9 + 4 ∧ dbH.equiv db3 = true ∧
+    h.all Stmt.elemSafe = true ∧ h.all Stmt.plainOpts = true :=
+  ⟨_, _, _, by rfl, by rfl, by rfl, by decide, by decide, by decide, by decide⟩
 
 end Sqlize.C04
